@@ -7,7 +7,7 @@ PROP = "C02"
 STUBS = LOOP_STUBS
 ASSUMPTIONS = ["children/body/environment as described in tg_scn; 'exit' is the first instruction after the `async with` block (a finally clause around it)"]
 OUTSIDE = ["more than 3 children, nesting depth > 2", "uvloop, trio"]
-MUST_REACH = ["group-raised", "two-failures", "failure-from-cleanup", "child-cancelled", "child-returned"]
+MUST_REACH = ["group-raised", "two-failures", "failure-from-cleanup", "child-cancelled", "child-returned", "external-spawn-accepted", "enclosing-scope-cancelled-during-exit-wait"]
 
 
 def units(tier):
@@ -33,6 +33,10 @@ def units(tier):
     add("L+E", [("L", "soon"), ("E", "task")])
     add("N group-cancel", [("N", "task")], env=("group",))
     add("B start + R handle0-cancel", [("B", "task"), ("R", "start")], env=("handle0", "group"))
+    add("E, external spawn of a blocker", [("E", "task")], env=("spawn",), ext="B", J=3)
+    add("X, external spawn of a blocker, group-cancel", [("X", "task")], env=("spawn", "group"), ext="B", J=2)
+    add("C group-cancel then outer-cancel", [("C", "task")], env=("group", "outer"), J=1)
+    add("C+R body-cancel then outer-cancel", [("C", "task"), ("R", "soon")], body="cancel", env=("outer",), J=2)
     add("E+E", [("E", "task"), ("E", "soon")])
     add("E+X", [("E", "task"), ("X", "soon")])
     add("X+X outer-cancel", [("X", "task"), ("X", "soon")], env=("outer",))
